@@ -134,4 +134,68 @@ static void shapes_build(int idx, int tier, long seed, struct kx_set* out)
                 kx_set_add(out, tmp, "piece");
         }
 }
+
+/* Tie family for the exact-distance shortcut of bpm_block (the shorter sequence is cut to its first 1024 residues): sequences of
+   about 1060 residues that share their first 1030; the edit distance of every pair is then 0 and only the length term orders
+   the pairs: sequences of equal length tie exactly, copies are not necessarily joined first, and the tails (small indels) give
+   the groups different gap patterns.  Three exact copies + five relatives; variant k = (protein, layout of the copies among the
+   eight records (4), length change of each relative in {-1, 0, +1} (3^5)) */
+#define SH_NTIE_EQ (2 * 56 * 4)   /* all eight of equal length: every pair ties; every choice of 3 of the 8 records as the copies */
+#define SH_NTIE (SH_NTIE_EQ + 243)
+static void sh_tie_build(int k, struct kx_set* out)
+{
+        static char P[1200], tmp[1200];
+        int eq = k < SH_NTIE_EQ;
+        int protein = eq ? (k & 1) : 1, layout = eq ? (k >> 1) % 56 : ((k - SH_NTIE_EQ) * 5) % 56;
+        int ms = eq ? (k >> 1) / 56 : 0;
+        int mult = 1 + (ms & 1), shift = (ms >> 1) * 3, dl = eq ? 0 : k - SH_NTIE_EQ, i, nx = 0;
+        const char* alpha = protein ? "LKWAVDEGSTNQRHFYMICP" : "ACGT";
+        int sigma = (int)strlen(alpha);
+        uint64_t st = 0x71E5 + (uint64_t)(k & 7);
+        int WHERE[3] = {0, 1, 2};
+        {
+                /* layout-th 3-subset of {0..7} in lexicographic order */
+                int a0, a1, a2, c = 0;
+                for(a0 = 0; a0 < 8; a0++){
+                        for(a1 = a0 + 1; a1 < 8; a1++){
+                                for(a2 = a1 + 1; a2 < 8; a2++, c++){
+                                        if(c == layout){
+                                                WHERE[0] = a0;
+                                                WHERE[1] = a1;
+                                                WHERE[2] = a2;
+                                        }
+                                }
+                        }
+                }
+        }
+        kx_set_init(out);
+        sh_random_seq(&st, alpha, 1060, P);
+        for(i = 0; i < 8; i++){
+                int copy = (i == WHERE[0] || i == WHERE[1] || i == WHERE[2]);
+                strcpy(tmp, P);
+                if(!copy && eq){
+                        /* a run of five equal residues inserted in the tail, the end cut by five: same length as the copies */
+                        int ins = 1033 + 3 * ((nx * mult + shift) % 7), q;
+                        memmove(tmp + ins + 5, tmp + ins, strlen(tmp + ins) + 1);
+                        for(q = 0; q < 5; q++){
+                                tmp[ins + q] = protein ? 'W' : 'T';
+                        }
+                        tmp[1060] = 0;
+                        nx++;
+                }else if(!copy){
+                        int d = dl % 3 - 1, del = 1035 + 4 * nx, ins = 1052 - 3 * nx;
+                        dl /= 3;
+                        if(d <= 0){
+                                memmove(tmp + del, tmp + del + 1, strlen(tmp + del + 1) + 1);
+                                ins--;
+                        }
+                        if(d >= 0){
+                                memmove(tmp + ins + 1, tmp + ins, strlen(tmp + ins) + 1);
+                                tmp[ins] = alpha[(nx + 1) % sigma];
+                        }
+                        nx++;
+                }
+                kx_set_addf(out, tmp, "t%d", i);       /* neutral names: the canonical (length, name) order interleaves copies and relatives as the layout says */
+        }
+}
 #endif
